@@ -179,6 +179,8 @@ func ProfileFor(prop string) *Profile {
 	case "C10":
 		only(p, map[string]int{"CreateSchedule": 25, "DeleteSchedule": 8, "ReadSchedule": 8, "CreatePromise": 8, "SearchSchedules": 4, "ReadPromise": 3})
 		p.Promises = []string{"p0", "sp.1700000060000", "s0.1700000060000"}
+		// ids the id template must carry over unaltered into the scheduled promise's id
+		p.Schedules = []string{"s0", "s1", "s2", "s+1", "a<b&c"}
 		p.PJump = 0.2
 		p.PCrashRun = 0.3
 		p.PRouted = 0.2
